@@ -178,6 +178,20 @@ theorem lv_str_eq (s : PyObj.Str) :
     · rw [if_pos h, if_neg (by omega)]; rfl
     · rw [if_neg h, if_pos (by omega)]; rfl
 
+/-- `encode_len_val(b)` for a `bytes` value (the third form of the `Union` parameter) -/
+theorem lv_bytes_eq (d : Bytes) :
+    AutomaticRegistrationService.encode_len_val_bytes modelExt d = ofE id (Dmr.Ars.lv (some d)) := by
+  cases d with
+  | nil => rfl
+  | cons b t =>
+    unfold AutomaticRegistrationService.encode_len_val_bytes
+    simp only [Dmr.Ars.lv, len_eq, toBytesBig1]
+    have e : (!!(b :: t).isEmpty || !true) = false := rfl
+    simp only [e, Bool.false_eq_true, if_false]
+    by_cases h : (b :: t).length < 256
+    · rw [if_pos h, if_neg (by omega)]; rfl
+    · rw [if_neg h, if_pos (by omega)]; rfl
+
 /-- `read_len_val(data, idx)` for every byte string and natural read position -/
 theorem rlv_eq (data : Bytes) (idx : Nat) :
     AutomaticRegistrationService.read_len_val modelExt data (idx : Int)
